@@ -264,6 +264,7 @@ fn main() {
                 "C07" => { let (n, f) = sweeps::sweep_c07(tier, seed); total += n; fails.extend(f); }
                 "C08" => { let (n, f) = sweeps::sweep_c08(tier, seed); total += n; fails.extend(f); }
                 "C09" | "C10" => { let (n, f) = sweeps::sweep_c09(tier, seed); total += n; fails.extend(f.into_iter().filter(|x| (pid == "C10") == x.contains("_rc\""))); }
+                "C16" => { let (n, f) = sweeps::sweep_c16(tier, seed); total += n; fails.extend(f); }
                 "C19" => { let (n, f) = sweeps::sweep_c19(tier, seed); total += n; fails.extend(f); }
                 "C14" => { let (n, f) = io::sweep_c14(tier, seed, unit_fmt(unit)); total += n; fails.extend(f); }
                 "C15" => { let (n, f) = io::sweep_c15(tier, seed, unit_fmt(unit)); total += n; fails.extend(f); }
